@@ -386,3 +386,23 @@ V("C09-b9", "C09", (ORIGIN, "                self.file_set_number.value = v\n", 
 V("C09-t1", "C09", (FILE, "            for set_type, set_dict in logical_file._eflr_sets.items():\n                if set_type not in (eflr_types.FileHeaderSet, eflr_types.OriginSet):\n                    yield from set_dict.values()",
                     "            for set_type, set_dict in logical_file._eflr_sets.items():\n                if set_type in (eflr_types.FileHeaderSet, eflr_types.OriginSet):\n                    continue\n                yield from set_dict.values()"),
   "silent", "continue form")
+
+# ---------------------------------------------------------------------------------------------- C20
+CHAN = "logical_record/eflr_types/channel.py"
+V("C20-b1", "C20", [(EITEM, "        self._parent = parent  #: EFLRSet instance this item belongs to\n", "        self._parent = parent  #: EFLRSet instance this item belongs to\n        self._parent.register_item(self)\n"),
+                    (EITEM, "        # the item is registered with its parent only now, when nothing can go wrong any more:\n        # an item whose set-up has failed (e.g. because of an invalid attribute value) must not be left in the set\n        self._parent.register_item(self)\n", "")],
+  "R20.1", "registration before validation (original defect F-ZOMBIE)")
+V("C20-b2", "C20", [(CHAN, "        # (done before super().__init__, which registers the channel with its parent: the cast dtype might be rejected)\n        self._dataset_name: Union[str, None] = dataset_name\n        self._set_cast_dtype(cast_dtype)\n\n        super().__init__(name, parent=parent, **kwargs)\n",
+                     "        super().__init__(name, parent=parent, **kwargs)\n\n        self._dataset_name: Union[str, None] = dataset_name\n        self._set_cast_dtype(cast_dtype)\n")],
+  "R20.1", "cast dtype validated after the channel was registered")
+V("C20-b3", "C20", (FILE, "        if data is not None:\n            self._data_dict[ch.dataset_name] = data\n\n        return ch",
+                    "        return ch"), "silent", "inline data dropped: not a C20 matter")
+V("C20-b4", "C20", (ATT, "        self._value = self.convert_value(val)", "        self._value = val\n        self._value = self.convert_value(val)"),
+  "R20.4", "raw value stored before conversion can reject it")
+V("C20-b5", "C20", (CHAN, "        if dt is not None:\n            ReprCodeConverter.validate_numpy_dtype(dt)\n\n        self._cast_dtype = dt",
+                    "        self._cast_dtype = dt"), "R20.4", "cast dtype stored unvalidated (agent mutant C20-m3)")
+V("C20-b6", "C20", (EITEM, "        return len(list(items_with_the_same_name))", "        return self.parent.next_copy_number(self.name)"),
+  "R20.1", "copy number from a counter method instead of the registered items")
+V("C20-t1", "C20", (EITEM, "        self.set_attributes(**{k: v for k, v in kwargs.items() if v is not None})\n        self._set_defaults_at_init()\n",
+                    "        given = {k: v for k, v in kwargs.items() if v is not None}\n        self.set_attributes(**given)\n        self._set_defaults_at_init()\n"),
+  "silent", "")
